@@ -35,6 +35,7 @@ pub const PROBES: &[&str] = &[
     "window_zero_length",
     "window_backwards_in_absolute_time_forwards_on_the_wall_clock",
     "open_ended_stream_compared",
+    "interior_start_checked_against_day_schedule",
     "observer_zone_jumps_too",
     "context_with_coordinates",
     "context_with_interval_bound",
@@ -524,6 +525,31 @@ where
         }
         if g.range.start == g.range.end && n.range.start != n.range.end {
             w.probes.hit("interval_collapsed_by_gap");
+        }
+        // I5 (independent of the location-free *stream*, which goes through the same `iter_range` code as the
+        // zone-aware one): every interior start is the context-zone instant of a range start of that day's
+        // `schedule_at` -- also where an interval-size bound cuts the stream into pieces
+        if k >= 1 {
+            let local = gs.0 + spec.offset(gs.0) as i64;
+            let day0 = ndt(local, 0).date();
+            let mut found = false;
+            'days: for d in [Some(day0), day0.pred_opt(), day0.succ_opt()].into_iter().flatten() {
+                let midnight = secs(d.and_hms_opt(0, 0, 0).unwrap());
+                for tr in oh_n.schedule_at(d) {
+                    let t = midnight + tr.range.start.hour() as i64 * 3600 + tr.range.start.minute() as i64 * 60;
+                    if gs.1 == 0 && spec.map_local(t) == gs.0 {
+                        found = true;
+                        break 'days;
+                    }
+                }
+            }
+            w.probes.hit("interior_start_checked_against_day_schedule");
+            if !found {
+                return Err((
+                    "start_not_a_schedule_boundary".into(),
+                    format!("interval #{k} of the stream from utc {} starts at utc {} (wall {}), which is not the context-zone instant of any range start of the schedules of {day0} and its neighbours", ndt(u, now.1), ndt(gs.0, gs.1), ndt(local, gs.1)),
+                ));
+            }
         }
         prev_end = Some(g.range.end.clone());
     }
